@@ -364,6 +364,11 @@ def install_text_level(ex):
         return NotImplemented
     ex.fn_overrides[name] = tokenize_override
     ex.merge_hook = merge_hook
+    # replace_numbers_in_text instantiates replace_numbers_in_stream with T = BasicToken: the associated function
+    # <T as Replace>::replace has no receiver to dispatch on, so bind it to BasicToken's implementation (MIR)
+    rn = ex.res.resolve_path('<T as Replace>::replace', 'BasicToken')
+    if rn is not None and 'Replace>::replace' not in ex.static_dispatch:
+        ex.static_dispatch['Replace>::replace'] = ex.mir.functions[rn][-1]
 
 
 def _tok(ex, v):
